@@ -961,10 +961,12 @@ fn payload(bits: usize) -> BoxedStrategy<Vec<u8>> {
         v[0] = t;
         v
     });
-    let topbit = uint(bits).prop_map(move |l| min_be(&(big(&l) | pow2(8 * n - 1))));
+    let topbit = uint(bits).prop_map(move |l| min_be(&(big(&l) | pow2((8 * n).saturating_sub(1)))));
     // top limb boundary of the whole-limb fast path: full BYTES bytes, top byte random
     let fullrand = (vec(any::<u8>(), n), 1u8..=255).prop_map(|(mut v, t)| {
-        v[0] = t;
+        if let Some(x) = v.first_mut() {
+            *x = t;
+        }
         v
     });
     prop_oneof![10 => canon, 3 => small, 3 => excess, 1 => ones, 1 => over, 1 => longer, 1 => topbit, 1 => fullrand].boxed()
@@ -1022,6 +1024,8 @@ fn g_flip(mut v: Vec<u8>, m: &M) -> Vec<u8> {
 type Build = fn(usize, &[u8], &M) -> (Vec<u8>, u64);
 
 fn fmt_strat(bits: usize, build: Build) -> BoxedStrategy<Case> {
+    // width 0 has no encodings of its own: generate inputs shaped for 8 bits and feed them to the 0-bit decoders
+    let bits = if bits == 0 { 8 } else { bits };
     let structured = (payload(bits), mutsel()).prop_map(move |(p, m)| {
         let (inp, k) = build(bits, &p, &m);
         Case::new().b(inp).n(k)
@@ -1362,6 +1366,8 @@ fn build_der(bits: usize, p: &[u8], m: &M) -> (Vec<u8>, u64) {
 
 /// raw content for Int::new / DerUint::new / Any::new; n[1] selects the constructor
 fn strat_der_raw(bits: usize) -> BoxedStrategy<Case> {
+    // width 0 has no encodings of its own: generate inputs shaped for 8 bits and feed them to the 0-bit decoders
+    let bits = if bits == 0 { 8 } else { bits };
     let n = nb(bits);
     let structured = (payload(bits), mutsel(), 0u64..8).prop_map(move |(p, m, ctor)| {
         let k = sel(&m, 9);
@@ -1483,6 +1489,8 @@ fn digits_text(v: &BigUint, radix: u64, m: &M) -> String {
 }
 
 fn strat_str(bits: usize) -> BoxedStrategy<Case> {
+    // width 0 has no encodings of its own: generate inputs shaped for 8 bits and feed them to the 0-bit decoders
+    let bits = if bits == 0 { 8 } else { bits };
     let radix = prop_oneof![
         6 => prop_oneof![Just(2u64), Just(8), Just(10), Just(16)],
         3 => prop_oneof![Just(3u64), Just(7), Just(36), Just(37), Just(62), Just(64)],
@@ -1537,6 +1545,8 @@ fn strat_str(bits: usize) -> BoxedStrategy<Case> {
 
 // ---- digit vectors for from_base_le / from_base_be: l[0] digits, n[1] base ----
 fn strat_base(bits: usize) -> BoxedStrategy<Case> {
+    // width 0 has no encodings of its own: generate inputs shaped for 8 bits and feed them to the 0-bit decoders
+    let bits = if bits == 0 { 8 } else { bits };
     let base = prop_oneof![
         6 => prop_oneof![Just(2u64), Just(3), Just(10), Just(16), Just(256), Just(10000), Just(1u64 << 32), Just(1u64 << 63), Just(u64::MAX), Just(u64::MAX - 1)],
         1 => prop_oneof![Just(0u64), Just(1)],
@@ -1600,6 +1610,8 @@ fn strat_base(bits: usize) -> BoxedStrategy<Case> {
 
 // ---- BigInt / BigUint: l[0] magnitude limbs, n[1] sign (1 = minus) ----
 fn strat_bigint(bits: usize) -> BoxedStrategy<Case> {
+    // width 0 has no encodings of its own: generate inputs shaped for 8 bits and feed them to the 0-bit decoders
+    let bits = if bits == 0 { 8 } else { bits };
     (payload(bits), 0u8..8, any::<u64>())
         .prop_map(|(p, k, a)| {
             let mut v = be_val(&p);
@@ -1972,6 +1984,8 @@ fn build_pg(t: usize, bits: usize, p: &[u8], m: &M) -> (Vec<u8>, u64) {
 }
 
 fn strat_pg(bits: usize, types: &'static [usize]) -> BoxedStrategy<Case> {
+    // width 0 has no encodings of its own: generate inputs shaped for 8 bits and feed them to the 0-bit decoders
+    let bits = if bits == 0 { 8 } else { bits };
     let n = nb(bits);
     let structured = (payload(bits), mutsel(), 0..types.len()).prop_map(move |(p, m, ti)| {
         let t = types[ti];
@@ -2582,7 +2596,7 @@ macro_rules! w17 {
 /// tiny widths (below the 6-bit payload of SCALE compact's single-byte mode, below one byte, zero)
 macro_rules! w17s {
     ($m:ident ! ( $($pre:tt)* )) => {
-        $m!($($pre)* [1, 2, 3, 5, 6])
+        $m!($($pre)* [0, 1, 2, 3, 5, 6])
     };
 }
 
